@@ -7,9 +7,10 @@ git diff -- job_shop_lib > /tmp/seed_$NAME.diff
 [ -s /tmp/seed_$NAME.diff ] || { echo "empty diff"; exit 2; }
 T=$(PYTHONPATH="$WT" /venv/bin/python -m pytest -q -p no:cacheprovider 2>&1 | tail -1)
 PYTHONPATH="$WT" /venv/bin/python demo.py >/tmp/seed_$NAME.with.log 2>&1; WITH=$?
-git stash -q
+# (no `git stash`: the stash is shared between all worktrees of the repository)
+git apply -R /tmp/seed_$NAME.diff || exit 2
 PYTHONPATH="$WT" /venv/bin/python demo.py >/tmp/seed_$NAME.without.log 2>&1; WITHOUT=$?
-git stash pop -q
+git apply /tmp/seed_$NAME.diff || exit 2
 echo "$NAME: tests='$T' demo_with=$WITH demo_without=$WITHOUT"
 case "$T" in *"190 passed"*) ;; *) echo "tests not green"; exit 1;; esac
 [ "$WITH" = 1 ] && [ "$WITHOUT" = 0 ] || { echo "demo does not discriminate"; exit 1; }
